@@ -63,7 +63,8 @@ def optOf (f : Int → Int) (w : String) : Option Int := if w == "N" then none e
 
 def selRows : List Int → List Sel.Row
   | t :: p :: pi :: me :: s :: ms :: ir :: mir :: src :: tag :: rest =>
-    ⟨key64 t, k32 p, piKey pi, k32 me, key64 s, key64 ms, ir != 0, mir != 0, src, tag.toNat⟩ :: selRows rest
+    -- the region flags carry the `--mask` entry in bit 1 (harness: flag + 2·inMask)
+    ⟨key64 t, k32 p, piKey pi, k32 me, key64 s, key64 ms, ir % 2 != 0, mir != 0, src, tag.toNat, ir / 2 % 2 != 0⟩ :: selRows rest
   | _ => []
 
 def errCode : Sel.Err → String
@@ -179,8 +180,8 @@ def step (ws : List String) : String :=
     let c : Sel.Cfg := { tmin := optOf key64 tmin, tmax := optOf key64 tmax, tinvert := tinv == "1",
                          pmin := optOf k32 pmin, pmax := optOf k32 pmax, pinvert := pinv == "1",
                          emin := optOf k32 emin, emax := optOf k32 emax, einvert := einv == "1", mc := mc == "1",
-                         rad := optOf key64 rad, innerrad := optOf key64 irad, useReg := ur == "1", reginvert := ri == "1",
-                         srcids := ints src }
+                         rad := optOf key64 rad, innerrad := optOf key64 irad, useReg := ur == "1" || ur == "3", reginvert := ri == "1",
+                         srcids := ints src, useMask := ur == "2" || ur == "3" }
     match Sel.validate c (key64 ts.toInt!) (key64 te.toInt!) (key32 (0.0 : Float).toFloat32) (key32 (1.0 : Float).toFloat32) with
     | some e => "err " ++ errCode e
     | none => "ok " ++ showInts ((Sel.select c (selRows (ints rows))).map fun r => (r.tag : Int))
